@@ -1,6 +1,18 @@
-"""C02: only table collections meeting the data-model requirements become tree sequences."""
+"""C02: only table collections meeting the data-model requirements become tree sequences (C gate by llsym; the Python
+gate TableCollection.tree_sequence by CrossHair)."""
+import os
+import sys
+
+HERE = os.path.dirname(os.path.dirname(os.path.abspath(__file__)))
+sys.path.insert(0, os.path.join(HERE, 'engine'))
 
 H = 'c02_integrity.c'
+
+
+def conds(tier):
+    return [dict(module='c02_props', function='tree_sequence_builds_an_index_only_when_absent', timeout=60,
+                 encodes=['tskit.tables.TableCollection.tree_sequence'],
+                 what='tree_sequence() builds an index only when none is present; an existing (stale / user-supplied) index reaches the C check untouched')]
 
 
 def jobs(tier):
@@ -14,10 +26,16 @@ def jobs(tier):
         dict(name='refs-migrations-free', harness=H, entry='main_c02',
              defines=dict(NN=3, NE=2, NPOP=1, NIND=1, NMIG=1, FREE_REFS=1, NSPECIAL=3),
              timeout=600, require_tags={'end': 1, 'accept': 1, 'reject': 1}),
+        dict(name='index-free', harness=H, entry='main_c02',
+             defines=dict(NN=3, NE=2, FREE_EDGES=1, FREE_INDEX=1, NSPECIAL=0), timeout=600,
+             require_tags={'end': 1, 'accept': 1, 'reject': 1, 'bad-index': 1}),
     ]
     if tier == 'quick':
         return q
     t = [
+        dict(name='index3-free', harness=H, entry='main_c02',
+             defines=dict(NN=3, NE=3, FREE_INDEX=1, NSPECIAL=0), timeout=1500,
+             require_tags={'end': 1, 'accept': 1, 'reject': 1, 'bad-index': 1}),
         dict(name='edges3-free', harness=H, entry='main_c02',
              defines=dict(NN=3, NE=3, FREE_EDGES=1, FREE_L=1, NSPECIAL=10), timeout=1500,
              require_tags={'end': 1, 'accept': 1, 'reject': 1}),
@@ -35,13 +53,13 @@ BOUNDS = {
     'quick': 'nodes<=3, edges<=2, sites<=2, mutations<=2, migrations<=2, individuals<=2 (2 parents each), '
              'populations<=1; ids free int32; coordinates/times integer-valued doubles in [-128,127] plus one '
              'slot at a time NaN/+inf/-inf; mutation times also UNKNOWN; sequence_length free (incl. <=0) in '
-             'the edge variant; index built by the real build_index',
+             'the edge variant; index built by the real build_index, or (index variant) both index orders free 32-bit values on 2 free edges: accepted iff permutations ordered by left / right',
     'thorough': 'as quick plus edges<=3, mutations<=3 and an all-tables-free variant at size 1-2',
 }
 OUTSIDE = [
-    'user-supplied (stale) index arrays: covered by the C01/C06 harnesses only for real build_index output',
+    'user-supplied index arrays on more than 2 free edges (3 fixed full-length edges in the thorough tier)',
     'non-integer finite coordinates (the checked code only compares coordinates)',
-    'the Python wrappers TableCollection.tree_sequence / tskit.load (CPython API)',
+    'tskit.load and TreeSequence.load_tables (CPython API); of TableCollection.tree_sequence only the index decision is covered',
     'the mutation-parent-is-nearest-mutation requirement (documented as not detected at load time)',
 ]
 ASSUMPTIONS = [
@@ -49,4 +67,10 @@ ASSUMPTIONS = [
     'z3 decides each path; integer-valued doubles are encoded exactly as integers (IntD)',
 ]
 
-MANIFEST = {'text': 'Bounded exhaustive symbolic execution of the real tsk_table_collection_build_index + tsk_treeseq_init on table collections whose every checked field is a solver variable, against an independent transcription of docs/data-model.md: accept iff requirements, for all values within the size bounds.', 'note': "Trusts clang's IR, the engine's IR semantics (cross-validated by native replay of sampled paths each run), z3, and the oracle transcription in harness/c02_integrity.c. Bounded table sizes; integer-valued coordinates plus NaN/inf.", 'technique': 'symbolic execution of LLVM IR + SMT (z3), bounded'}
+MANIFEST = {'text': 'Bounded exhaustive symbolic execution of the real tsk_table_collection_build_index + tsk_treeseq_init on table collections whose every checked field is a solver variable, against an independent transcription of docs/data-model.md: accept iff requirements, for all values within the size bounds.', 'note': "Trusts clang's IR, the engine's IR semantics (cross-validated by native replay of sampled paths each run), z3, and the oracle transcription in harness/c02_integrity.c. Bounded table sizes; integer-valued coordinates plus NaN/inf.", 'technique': 'symbolic execution of LLVM IR + SMT (z3), bounded; CrossHair on the Python gate'}
+
+
+def run(pid, tier, seed, only=None):
+    import mixed
+    return mixed.run_mixed(pid, tier, seed, only, jobs(tier), conds(tier), BOUNDS[tier], OUTSIDE, ASSUMPTIONS,
+                           ['fake table collection (has_index / build_index), TreeSequence.load_tables replaced by a recorder'])
